@@ -15,7 +15,12 @@ VERIF = os.path.dirname(os.path.dirname(os.path.abspath(__file__)))
 
 def main():
     rows = []
-    for root in sys.argv[1:]:
+    prefix = ""
+    args = sys.argv[1:]
+    if args and args[0].startswith("--prefix="):
+        prefix = args[0].split("=", 1)[1]
+        args = args[1:]
+    for root in args:
         for name in sorted(os.listdir(root)):
             d = os.path.join(root, name)
             if not (os.path.isdir(d) and os.path.exists(os.path.join(d, "patch.diff"))):
@@ -25,7 +30,7 @@ def main():
                 print("skip (not confirmed):", name)
                 continue
             meta = json.load(open(os.path.join(d, "meta.json")))
-            out = os.path.join(VERIF, "seeded", name)
+            out = os.path.join(VERIF, "seeded", prefix + name)
             os.makedirs(out, exist_ok=True)
             shutil.copy(os.path.join(d, "patch.diff"), os.path.join(out, "patch.diff"))
             shutil.copy(os.path.join(d, "demo.rs"), os.path.join(out, "demo.rs"))
@@ -50,7 +55,8 @@ def main():
                 "summary": meta.get("summary"),
                 "needs_to_manifest": meta.get("needs_to_manifest"),
                 "files": meta.get("files"),
-                "written_by": "independent sub-agent given only the property text and its own worktree of /repo (commit c4a3b28)",
+                "written_by": "independent sub-agent given only the property text and its own worktree of /repo (commit c4a3b28)" + (
+                    "; second round: also given one-line summaries of the first-round changes, to be avoided" if prefix else ""),
                 "author_ran": meta.get("ran"),
                 "confirmed_here": {
                     "how": "lib/seedtest.py confirm: patched scratch copy of /repo: cargo test --offline --workspace (131 lib tests + doc tests green); "
@@ -71,7 +77,7 @@ def main():
                     break
                 if v["exit"] == 2 and best == "MISSED":
                     best = "undecided (%s)" % k
-            rows.append((name, best, (meta.get("summary") or "")[:90]))
+            rows.append((prefix + name, best, (meta.get("summary") or "")[:90]))
     for r in rows:
         print("%-8s %-28s %s" % r)
 
